@@ -8,18 +8,29 @@
 (***************************************************************************)
 EXTENDS Integers, Sequences, FiniteSets, TLC, Json
 
-CONSTANTS MaxC
+CONSTANTS MaxC, MaxLong, MaxJobs
 
 Pairs == {<<l, r>> : l \in {1, 2}, r \in {3, 4}}
 Inj(n) == {s \in [1..n -> Pairs] : \A a, b \in 1..n : a # b => s[a] # s[b]}
 Candsets == UNION {Inj(n) : n \in 0..MaxC}
 
-VARIABLES cand, miss
-vars == <<cand, miss>>
+(* long candidate sets: the first n pairs of a fixed enumeration of a 4 x 4 key space, split over *)
+(* k jobs - every (length, jobs) combination, so that every chunk boundary position occurs        *)
+LongPairs == [n \in 1..16 |-> <<1 + ((n - 1) % 4), 5 + ((n - 1) \div 4)>>]
+Longs == {<<n, k>> : n \in 1..MaxLong, k \in 2..MaxJobs}
 
-Init == /\ cand \in Candsets
-        /\ miss \in SUBSET {1, 2, 3, 4}
-        /\ PrintT(<<"GEN", ToJson([C |-> cand, M |-> miss])>>)
+VARIABLES cand, miss, jobs
+vars == <<cand, miss, jobs>>
+
+Init == \/ /\ cand \in Candsets
+           /\ miss \in SUBSET {1, 2, 3, 4}
+           /\ jobs = 0
+           /\ PrintT(<<"GEN", ToJson([kind |-> "small", C |-> cand, M |-> miss, jobs |-> jobs])>>)
+        \/ \E nk \in Longs :
+              /\ cand = SubSeq(LongPairs, 1, nk[1])
+              /\ miss \in {{}, {2}}
+              /\ jobs = nk[2]
+              /\ PrintT(<<"GEN", ToJson([kind |-> "long", C |-> cand, M |-> miss, jobs |-> jobs])>>)
 Next == UNCHANGED vars
 Spec == Init /\ [][Next]_vars
 =============================================================================
